@@ -246,6 +246,17 @@ def run_job(unit, job, cpath, workdir, tier):
         r.cmds.append(' '.join(cmd))
         rc, out, err, w = _run(cmd, 600)
         r.wall += w
+        tries = 0
+        while rc != 0 and tries < 12:
+            # a stub that the (changed) code no longer calls does not exist in the binary: drop it and retry
+            m = re.search(r"Function to replace '(\w+)' not found", err + out)
+            if not m or m.group(1) not in cmd:
+                break
+            k = cmd.index(m.group(1))
+            del cmd[k - 1:k + 1]
+            tries += 1
+            rc, out, err, w = _run(cmd, 600)
+            r.wall += w
         if rc != 0:
             r.reason = 'goto-instrument failed: ' + (err + out)[-2500:]
             return r
